@@ -5,7 +5,7 @@ META = {
     "explanation": "Inventory of working-directory reads (CWD1), root discovery iterating [cwd, *parents] to the nearest config file "
                    "(CWD2), cwd-derived values used only for total relative rendering (CWD3), and origin classes of every filesystem "
                    "effect and subprocess cwd in CLI-reachable code: project-rooted or user-supplied, never bare-relative (CWD4).",
-    "rules": ["CWD1", "CWD2", "CWD3", "CWD4"],
+    "rules": ["CWD1", "CWD2", "CWD3", "CWD4", "CWD6"],
     "assumptions": ["equality of exit status/effects in general is behavioural; decided: nothing but display depends on cwd"],
     "trusted": ["ast parser", "origin classification (untraceable origins are counted as unknown, never as violations)"],
 }
